@@ -82,6 +82,12 @@ func c05More() []*Scenario {
 				func(s *harness.SchedWorld) { s.RGet("m", bs("c")); s.RMinMax("m", true) },
 				func(s *harness.SchedWorld) { s.RVisit("m", false, 0) },
 			}},
+		{Name: "S9-value-vs-keyonly", Desc: "reader [ascending visit with values] || reader [descending, then ascending visit without values] on a freshly re-opened file (one evicts and re-loads key-only what the other is about to complete with its value)",
+			Setup: setup3(true),
+			Threads: []func(s *harness.SchedWorld){
+				func(s *harness.SchedWorld) { s.RVisit("m", false, 0) },
+				func(s *harness.SchedWorld) { s.RVisitKeyOnly("m", true); s.RVisitKeyOnly("m", false) },
+			}},
 		{Name: "S8-flushes", Desc: "mutator [Set b, Delete a] || flusher [Flush, Flush]",
 			Setup: setup3(false),
 			Threads: []func(s *harness.SchedWorld){
@@ -93,6 +99,15 @@ func c05More() []*Scenario {
 
 func c05Profiles(tier string) []Profile {
 	var ps []Profile
+	// interleavings at operation granularity with readers blocked inside their
+	// visitor callbacks (deeper than any preemption bound reaches): sequential
+	dr := 6
+	if tier == "thorough" {
+		dr = 7
+	}
+	rp := readersProfile(dr)
+	rp.Name = "S10-paused-readers"
+	ps = append(ps, rp.Profile("readers blocked in their callbacks: "+readersRule(dr)))
 	if tier == "thorough" {
 		for _, sc := range append(c05Scenarios(), c05More()...) {
 			ps = append(ps, sc.Profile(2))
@@ -108,7 +123,11 @@ func c05Profiles(tier string) []Profile {
 		ps = append(ps, sc.Profile(2))
 	}
 	for _, sc := range c05More() {
-		ps = append(ps, sc.Profile(1))
+		b := 1
+		if sc.Name == "S9-value-vs-keyonly" {
+			b = 2
+		}
+		ps = append(ps, sc.Profile(b))
 	}
 	return ps
 }
